@@ -136,6 +136,49 @@ def _walk_item(ex, st, k):
         goal = z3.And(goal, g)
     yield ('recursion_arguments', goal,
            'recursion uses limit_sub_bbox(cur_bbox, sub_bbox), current_level + 1 and all_subtiles == (intersection == CONTAINS)')
+    # ---- added after the mutation audit: the positive half (what MUST happen for an intersecting sub tile) ----------------
+    from pyvc.values import to_int, VSeq
+    ent = st.entry.env
+    levels0, cur = ent['levels'], ent['current_level']
+    levels_now = st.env['levels']
+    process = ex.truth(st, st.env['process'])
+    j = z3.Int('wk_j')
+    selected = z3.Exists([j], z3.And(0 <= j, j < levels0.length(), to_int(levels0.elem(j)) == to_int(cur)))
+    shift = z3.If(process, 1, 0)
+    g_flag = z3.And(process == selected, levels_now.length() == levels0.length() - shift,
+                    z3.ForAll([j], z3.Implies(z3.And(0 <= j, j < levels_now.length()),
+                                              to_int(levels_now.elem(j)) == to_int(levels0.elem(j + shift)))))
+    yield ('level_selection', g_flag,
+           'tiles of this level are processed iff current_level is one of the levels still to do; exactly that one entry (the '
+           'first) is taken off the list handed to the next level')
+    ap = [e for e in evs_ if e.name == 'already_processed']
+    deeper = levels_now.length() > 0
+    g_rec = z3.Implies(z3.And(z3.Not(none_sub), deeper),
+                       z3.BoolVal(len(ap) == 1) if True else z3.BoolVal(True))
+    if len(ap) == 1:
+        g_rec = z3.And(g_rec, z3.Implies(z3.And(z3.Not(none_sub), deeper), z3.Not(ex.truth(st, ap[0].result)) == z3.BoolVal(len(walks) == 1)))
+    g_rec = z3.And(g_rec, z3.Implies(z3.Not(deeper), z3.BoolVal(not walks)))
+    yield ('intersecting_subtile_is_descended_into', g_rec,
+           'an intersecting sub tile is recursed into exactly when deeper levels remain and the saved progress does not say it '
+           'was already completed')
+    def is_sub(a):
+        return a is sub or a is getattr(sub, 'val', None)
+    seen = [e for e in evs_ if e.name == 'contains' and len(e.args) == 2 and is_sub(e.args[1])]
+    apl = [e for e in evs_ if e.name == 'appendleft']
+    tl = [e for e in evs_ if e.name == 'tile_list']
+    h = st.heap[st.env['self'].ref]
+    wm, hall = ex.truth(st, h['work_on_metatiles']), ex.truth(st, h['handle_all'])
+    fresh_tile = z3.And(z3.Not(none_sub), process, z3.Not(ex.truth(st, seen[0].result)) if seen else z3.BoolVal(False))
+    g_proc = z3.And(
+        z3.Implies(z3.BoolVal(bool(procs) or bool(apl)), z3.And(process, z3.Not(none_sub), z3.BoolVal(len(seen) == 1))),
+        z3.Implies(z3.And(z3.Not(none_sub), process), z3.BoolVal(len(seen) == 1)),
+        z3.Implies(fresh_tile, z3.BoolVal(len(apl) == 1 and is_sub(apl[0].args[-1]))),
+        z3.Implies(z3.And(fresh_tile, z3.Not(wm)), z3.BoolVal(len(tl) == 1 and is_sub(tl[0].args[-1]))),
+        z3.Implies(z3.And(fresh_tile, wm, hall),
+                   z3.BoolVal(len(procs) == 1 and isinstance(procs[0].args[0], VSeq))))
+    yield ('selected_subtile_is_processed', g_proc,
+           'a sub tile of a selected level that was not handled before is remembered (appendleft) and handed to the worker pool '
+           '(its tile list, or itself when working on meta tiles); nothing is processed on unselected levels or twice')
 
 
 def _interrupted_progress(ex, st, k, st_start, exc):
@@ -154,13 +197,33 @@ def _interrupted_progress(ex, st, k, st_start, exc):
            'StopProcess raised below sub tile i leaves (i, n) on the progress path (level + 1), it is not unwound')
 
 
+def _walk_prologue(ex, st, post, result):
+    """which sub tiles are considered at all: those of get_affected_level_tiles(cur_bbox, current_level), filtered against the
+    coverage unless the caller said "all" or the last levels are exempt by configuration"""
+    import z3
+    from pyvc.values import eq, to_int, VSeq
+    gal = [e for i, e in T.evs(st, 'get_affected_level_tiles')]
+    fl = [e for i, e in T.evs(st, '_filter_subtiles')]
+    ok = len(gal) == 1 and len(fl) == 1 and isinstance(gal[0].result, VSeq) and fl[0].args[-2] is gal[0].result.items[2]
+    goal = z3.BoolVal(bool(ok))
+    if ok:
+        h = st.heap[post.env['self'].ref]
+        exempt = post.env['levels'].length() < to_int(h['skip_geoms_for_last_levels'])
+        goal = z3.And(goal, eq(gal[0].args[-2], post.env['cur_bbox']), eq(gal[0].args[-1], post.env['current_level']),
+                      ex.truth(st, fl[0].args[-1]) == z3.Or(ex.truth(st, post.env['all_subtiles']), exempt))
+    yield ('subtiles_are_filtered_against_the_coverage', goal,
+           '_filter_subtiles gets the sub tiles of (cur_bbox, current_level) and all_subtiles == (caller said all OR fewer levels left '
+           'than skip_geoms_for_last_levels): the intersection test is skipped in no other case')
+
+
 contract(SD + 'TileWalker._walk', props=['C11', 'C12'],
          types=dict(cur_bbox='tuple[real,real,real,real]', levels='list[int]', current_level='int', all_subtiles='bool'),
          returns='none', default_callee='opaque',
-         inline=['step_down', 'already_processed', 'step_forward', 'report_progress'], opaque=['_walk'],
+         inline=['step_down', 'step_forward', 'report_progress'], opaque=['_walk', 'already_processed'],
          opaque_spec={'get_affected_level_tiles': {'returns': 'tuple[opaque,tuple[int,int],opaque]', 'raises': ['GridError'], 'pure': True},
                       '_filter_subtiles': {'returns': 'list[tuple[opt[tuple[int,int,int]],opt[tuple[real,real,real,real]],opaque]]', 'pure': True},
                       '_walk': {'raises': ['StopProcess']}, 'running': {'returns': 'bool', 'pure': True},
+                      'already_processed': {'returns': 'bool', 'pure': True},
                       'tile_list': {'returns': 'list[opt[tuple[int,int,int]]]', 'pure': True},
                       'is_cached': {'returns': 'bool', 'pure': True}, 'is_stale': {'returns': 'bool', 'pure': True},
                       'status_symbol': {'pure': True}, 'log_progress': {'pure': True}, 'process': {'pure': True},
@@ -170,4 +233,4 @@ contract(SD + 'TileWalker._walk', props=['C11', 'C12'],
          loops={0: dict(inv=['sp_wf(self.seed_progress)'], havoc=[_havoc_progress],
                         types={'all_subtiles': 'bool', 'sub_bbox': 'opt[tuple[real,real,real,real]]', 'handle_tiles': 'opaque'},
                         body_trace=[_walk_item], raise_trace=[_interrupted_progress])},
-         trace=[])
+         trace=[_walk_prologue])
